@@ -178,7 +178,7 @@ fn main() {
             for line in stdin.lock().lines() {
                 let line = line.unwrap();
                 let line = match line.find("\t=>") { Some(i) => line[..i].to_string(), None => line };
-                if line.trim().is_empty() { continue; }
+                if line.trim().is_empty() || line.starts_with('#') { continue; }
                 run_case(&line);
             }
         }
